@@ -1,5 +1,5 @@
-CONSTANT Deep = TRUE
-CONSTANT AttrScope = "no"
+CONSTANT Deep = FALSE
+CONSTANT AttrScope = "full"
 SPECIFICATION Spec
 INVARIANT DesignOK
 CHECK_DEADLOCK FALSE
